@@ -385,7 +385,8 @@ fn offset_spelling(rep: &Report, n: usize, seed: u64) {
         let (mut data, bl, wl) = rand_data(&mut rng, 2, 2);
         // sometimes a few hundred bytes (or most of a segment) in front, so that label offsets leave the byte range
         if rng.chance(1, 3) {
-            let n = if rng.chance(1, 4) { 40_000 + rng.below(20_000) as u16 } else { 200 + rng.below(200) as u16 };
+            // (the first label then sits exactly at / next to the last offset a byte position can hold)
+            let n = match rng.below(8) { 0 | 1 => 40_000 + rng.below(20_000) as u16, 2 | 3 | 4 => *rng.pick(&[253u16, 254, 255, 256, 257]), _ => 200 + rng.below(200) as u16 };
             data.insert(0, DataItem::Def(DataDef { label: None, word: false, kind: DK::Fill(7, n) }));
         }
         if rng.chance(1, 3) {
@@ -397,7 +398,7 @@ fn offset_spelling(rep: &Report, n: usize, seed: u64) {
         }
         let dtext = Program { data: data.clone(), items: vec![] }.render(&mut Spell::random(rng.fork(1)), &Layout::plain()).text;
         let names: Vec<String> = bl.iter().chain(wl.iter()).cloned().collect();
-        let tpls = ["mov ax, {}", "add bx, {}", "cmp word [si], {}", "mov dx, word [bx, {}]", "mov al, byte [{}]", "lea di, word [bp, si, {}]", "sub word es[di, {}], cx", "print mem {} -> 1048575", "print mem : {}", "mov cl, {}", "and byte [bx], {}"];
+        let tpls = ["mov ax, {}", "add bx, {}", "cmp word [si], {}", "mov dx, word [bx, {}]", "mov al, byte [{}]", "lea di, word [bp, si, {}]", "sub word es[di, {}], cx", "print mem {} -> 1048575", "print mem : {}", "mov cl, {}", "and byte [bx], {}", "mov bl, {}", "cmp al, {}", "int {}"];
         let mut lit = format!("{}start:\n", dtext);
         let mut off = lit.clone();
         let mut used = 0;
@@ -408,7 +409,7 @@ fn offset_spelling(rep: &Report, n: usize, seed: u64) {
             };
             for _ in 0..3 {
                 let t = tpls[rng.below(tpls.len())];
-                let byte_pos = t.starts_with("mov cl") || t.starts_with("and byte");
+                let byte_pos = t.starts_with("mov cl") || t.starts_with("and byte") || t.starts_with("mov bl") || t.starts_with("cmp al") || t.starts_with("int ");
                 if byte_pos && o > 255 {
                     // out of range for the position: both spellings must meet the same fate (a program of its own)
                     let l1 = format!("{}start:\n{}\n", dtext, t.replace("{}", &format!("{}", o)));
